@@ -28,6 +28,9 @@ pub struct Extra {
 }
 
 pub fn extra(prop: &str, tier: &str, threads: usize) -> Option<Extra> {
+    if tier == "miri" {
+        return None;
+    }
     match prop {
         "C03" => Some(layout_sweep(if tier == "thorough" { 512 } else { 64 }, threads)),
         "C18" => Some(alloc_words(tier == "thorough", threads)),
